@@ -1,5 +1,5 @@
 """Property table: which engine and configuration decides each property."""
-import e1, e3
+import e1, e3, c04
 
 E1_ASSUME = [
     "interleavings are explored at synchronisation operations only (mutex, rwmutex, waitgroup, atomic, channel, select, go, timer, context); plain-memory data races are outside this search and are looked for by the separate free-running -race pass",
@@ -40,4 +40,5 @@ PROPS = {
                 assumptions=["inputs whose declared header size lies between 1 MiB and 2 GiB make the stream readers allocate that much before reading (about a second each); they are counted as skipped per entry point and represented by explicit probes; such an allocation is recorded as a diagnostic, not a violation",
                              "asynchronous receivers (adapter read loop, NATS/STOMP subscriber loops) are covered by the E1 harnesses of C15/C07 with malformed bodies; this check drives the synchronous entry points they call"],
                 explanation="every input runs inside its own controlled-scheduler execution, so a call that parks forever is a detected end state rather than a timeout"),
+    "C04": dict(run=c04.run, replay=c04.replay, level="exploration"),
 }
